@@ -82,7 +82,9 @@ func judge(s *saved) []h.Failure {
 		return nil
 	}
 	// uncaught: the program ends with the exception's message
-	if s.ErrMsg != "" && !strings.Contains(o.Display, s.ErrMsg) {
+	// (the message line - the last line of the report - not the quoted source lines, which may
+	// well contain the very literal the message was written as)
+	if s.ErrMsg != "" && !strings.HasSuffix(lastLine(o.Display), "："+s.ErrMsg) {
 		return []h.Failure{{Sig: "exc/message-lost", Msg: fmt.Sprintf("%s\nuncaught exception message %q is not part of the reported error:\n%s", ctx, s.ErrMsg, o.Display)}}
 	}
 	if s.ErrDepth >= 0 && o.VM != nil {
@@ -97,6 +99,11 @@ func judge(s *saved) []h.Failure {
 		}
 	}
 	return nil
+}
+
+func lastLine(text string) string {
+	lines := strings.Split(strings.TrimRight(text, "\n"), "\n")
+	return lines[len(lines)-1]
 }
 
 func firstDiff(want, got []string) string {
@@ -151,7 +158,8 @@ func (g *gen) raise(tag string) []zn.Stmt {
 		return []zn.Stmt{&zn.Let{Names: []string{"Y" + tag}, E: &zn.Call{Name: "Helper", Args: []zn.Expr{num(1), num(2)}}}}
 	case 0, 1:
 		g.labels["raise:throw-builtin"] = true
-		return []zn.Stmt{&zn.Throw{Class: "异常", Args: []zn.Expr{str("m-" + tag)}}}
+		// (messages are text, whatever they contain: per cent signs, braces, backslashes)
+		return []zn.Stmt{&zn.Throw{Class: "异常", Args: []zn.Expr{str("m-" + tag + []string{"", "", " 100%d 完成50%，剩余%s", " {#.2} {} \\n", " %!v(MISSING) %%"}[g.pick(5, "odd-msg")])}}}
 	case 2:
 		g.labels["raise:throw-custom-ctor"] = true
 		return []zn.Stmt{&zn.Throw{Class: "E1", Args: []zn.Expr{str("c-" + tag), num(7)}}}
